@@ -31,6 +31,48 @@ STDLIB = [
 ]
 STDLIB = list(dict.fromkeys(STDLIB))
 
+
+
+def all_stdlib(repo: str, version: tuple[int, int] = (3, 12)) -> list[str]:
+    """every module of the bundled typeshed stdlib that exists for `version` (typeshed/stdlib/VERSIONS)"""
+    import os
+    root = os.path.join(repo, "mypy", "typeshed", "stdlib")
+    ranges: dict[str, tuple[tuple[int, int], tuple[int, int]]] = {}
+    for line in open(os.path.join(root, "VERSIONS")):
+        line = line.split("#")[0].strip()
+        if not line:
+            continue
+        mod, rng = [x.strip() for x in line.split(":")]
+        lo, _, hi = rng.partition("-")
+        lo_t = tuple(int(x) for x in lo.split("."))
+        hi_t = tuple(int(x) for x in hi.split(".")) if hi else (99, 99)
+        ranges[mod] = (lo_t, hi_t)  # type: ignore[assignment]
+
+    def ok(mod: str) -> bool:
+        parts = mod.split(".")
+        for i in range(len(parts), 0, -1):
+            r = ranges.get(".".join(parts[:i]))
+            if r is not None:
+                return r[0] <= version <= r[1]
+        return False
+    mods = []
+    for dirpath, dirs, files in os.walk(root):
+        dirs[:] = sorted(d for d in dirs if not d.startswith("@") and d != "__pycache__")
+        rel = os.path.relpath(dirpath, root)
+        pkg = [] if rel == "." else rel.split(os.sep)
+        for fn in sorted(files):
+            if not fn.endswith(".pyi"):
+                continue
+            name = fn[:-4]
+            parts = pkg + ([] if name == "__init__" else [name])
+            if not parts:
+                continue
+            mod = ".".join(parts)
+            if ok(mod) and all(p.isidentifier() for p in parts):
+                mods.append(mod)
+    return mods
+
+
 TD_MODULE = '''\
 from typing import TypedDict, NotRequired
 from typing_extensions import ReadOnly
